@@ -167,6 +167,7 @@ func runC13(c *Ctx) {
 	r.Rule("family", "tokenizer raises E1xxx codes only; parser and gosqlx never raise E1xxx")
 	r.Rule("limit-builder", "the limit branch of every recursion guard builds RecursionDepthLimitError")
 	r.Rule("chain", "an error whose text is folded into a new error (passed to a verb, or .Error() into a message) must also be attached: %w for that operand, WithCause(e) on the builder chain, or WrapError(…, e)")
+	r.Rule("cause-attached", "in pkg/errors every function returning *Error that takes an error parameter (WithCause, WrapError) stores it as the cause, or hands it to one that does, on every path on which it is not nil: the chain rule trusts them")
 	r.Rule("message", "the message/description argument of a builder is a non-empty constant or a formatted string with a non-empty constant format")
 	r.Rule("reproducible", "no range over a map, time/rand call or %p verb in pkg/errors, tokenizer or parser code")
 	scope := func(f *ssa.Function) bool { return f != nil && f.Blocks != nil && core.InPkgs(f, c13Scope...) }
@@ -219,6 +220,7 @@ func runC13(c *Ctx) {
 			}
 		}
 	}
+	r.Floor("cause-attached", c13CauseAttached(c, p, "cause-attached"), 2, "builders of pkg/errors that take a cause")
 	r.Floor("provenance", r.Count("provenance"), 60, "functions returning errors")
 	r.Floor("family", r.Count("family"), 40, "builder call sites")
 	r.Floor("chain", r.Count("chain"), 12, "rewrap sites")
